@@ -192,6 +192,39 @@ func (k *alphaKind) HasRange() bool  { return true }
 func (k *alphaKind) IsBytes() bool   { return true }
 
 // ---------------------------------------------------------------------------
+// rawCmpKind: a compound tree keyed by []byte whose codec is the library's own
+// pass-through AlphabeticalOrderKey[[]byte] - the user's keys already are binary
+// comparable byte strings. They are self-terminated (a payload without 0x00, then
+// one 0x00) and therefore prefix-free, as a compound tree requires of its codec.
+// With this codec the leaf refers to the bytes the codec returned, i.e. to the
+// caller's slice: the caller keeps every inserted key alive and unchanged (the
+// harness does), while no call may write to any key argument (C13).
+
+type rawCmpKind struct{}
+
+func (k *rawCmpKind) Name() string   { return "cmpraw:bytes" }
+func (k *rawCmpKind) Family() string { return "compound" }
+func (k *rawCmpKind) Canon(raw []byte) []byte {
+	if len(raw) == 0 {
+		return raw // only ever a Range bound or a probe, never inserted
+	}
+	out := make([]byte, 0, len(raw)+1)
+	for _, b := range raw {
+		if b != 0 {
+			out = append(out, b)
+		}
+	}
+	return append(out, 0)
+}
+func (k *rawCmpKind) Ident(raw []byte) string  { return string(k.Canon(raw)) }
+func (k *rawCmpKind) Compare(a, b []byte) int  { return bytes.Compare(k.Canon(a), k.Canon(b)) }
+func (k *rawCmpKind) SameKey(g, w []byte) bool { return bytes.Equal(g, k.Canon(w)) }
+func (k *rawCmpKind) Show(raw []byte) string   { return showBytes(raw) }
+func (k *rawCmpKind) HasPrefix() bool          { return false }
+func (k *rawCmpKind) HasRange() bool           { return true }
+func (k *rawCmpKind) IsBytes() bool            { return true }
+
+// ---------------------------------------------------------------------------
 // numeric kinds
 
 type numKind struct {
@@ -639,6 +672,8 @@ func ParseKind(spec string) (Kind, error) {
 			return nil, fmt.Errorf("bad collation kind %q", spec)
 		}
 		return newCollKind(p[1], p[2])
+	case spec == "cmpraw:bytes":
+		return &rawCmpKind{}, nil
 	case strings.HasPrefix(spec, "cmp:"):
 		k := &compoundKind{}
 		for _, f := range strings.Split(strings.TrimPrefix(spec, "cmp:"), ",") {
@@ -713,6 +748,9 @@ func NewSubject[V any](k Kind, vc ValCodec[V]) Subject {
 				to:   func(b []byte) []rune { return []rune(string(b)) },
 				from: func(r []rune) []byte { return []byte(string(r)) }}
 		}
+	case *rawCmpKind:
+		// no buffer reuse here: with the pass-through codec the stored keys are the caller's slices
+		return &adapter[[]byte, V]{t: art.NewCompoundTree[[]byte, V](art.AlphabeticalOrderKey[[]byte]{}), vc: vc, to: clone, from: clone}
 	case *compoundKind:
 		return &adapter[Tuple, V]{t: art.NewCompoundTree[Tuple, V](tupleCodec{kk}), vc: vc,
 			to: kk.toTuple, from: kk.fromTuple}
